@@ -21,7 +21,14 @@ CLAIMS = {
          'to produce exactly (a +/- b) mod q_j in every RNS word of the common polynomials and the (negated, for a - b) extra polynomials of the longer operand, after multiplying both operands by scalars e1, e2 with e1*f1 = e2*f2 = f (mod t) '
          '(balance_correction_factors is proved for all factor pairs, including termination and absence of i64 overflow); invalid operands, different levels, different representations and mismatched scales are refused. '
          'The 51 polysmallmod primitives these operations call are proved exact (unit c06_polymod*). '
-         'Not covered: multiplication / squaring (BEHZ), relinearisation, plaintext-operand variants, that word-level results decrypt to the ring operation (needs NTT/CRT theory and noise analysis).', '5 C02'),
+         'Multiplication: bgv_multiply / ckks_multiply / multiply_inplace / multiply / multiply_new produce, in every RNS word, the ciphertext convolution sum_{a+b=i} c1[a](.)c2[b] mod q_j accumulated in index order (with a lemma that the index pairs visited are exactly those with a+b=i inside both operands), '
+         'the BGV correction factor is the product mod t, operands on different levels or in coefficient form are refused (unit c02_mul); for BFV the lifting of both operands to base q and Bsk in NTT form (BEHZ steps 1-3) is checked as fragments with abstract RNS tools (unit c02_bfvmul). '
+         'Not covered: BEHZ steps 4-8 of bfv_multiply, squaring (unsafe aliasing), relinearisation / key switching, plaintext-operand variants, that word-level results decrypt to the ring operation (needs NTT/CRT theory and noise analysis).', '5 C02'),
+ 'C03': ('The scale-bookkeeping half of the property, as contracts on the evaluator code (floats are opaque: WHICH float operation is applied to WHICH operands is what is proved, not its value): '
+         'ckks_multiply records exactly scale(a)*scale(b) and refuses (no normal return) when Evaluator::is_scale_within_bounds fails; is_scale_within_bounds compares floor(log2(scale)) with the total coefficient-modulus bit count of the level for CKKS and the plain-modulus bit count for BFV/BGV; '
+         'rescale_to_next / rescale_to divide the scale by each dropped prime, in chain order, and mod_switch leaves it unchanged (unit c05_switch); add / sub refuse operands whose scales are not close and operands on different levels (unit c02_translate); '
+         'multiply refuses operands on different levels and coefficient-form operands, and its data words are the ciphertext convolution sum_{a+b=i} c1[a](.)c2[b] mod q_j (unit c02_mul). '
+         'Not covered: the first half of the property (decoded result within the worst-case error: needs NTT/embedding theory, floating point and noise analysis), ckks_square (unsafe raw-pointer aliasing), multiply_plain, the values of float operations.', '5 C03'),
  'C04': ('GaloisTool::apply is proved to be the substitution X -> X^g on a zero-padded coefficient vector for every N = 2^k (k <= 17) and every odd g < 2N: result[(i*g) mod N] = (-1)^floor(i*g/N) * operand[i] mod q, '
          'with the number-theoretic lemma that i -> i*g mod N is injective for odd g (so every output word is written exactly once); get_elt_from_step returns 3^s mod 2N (3^(N/2-|s|) for right rotations, 2N-1 for step 0) and refuses |s| >= N/2; '
          'get_index_from_elt; Evaluator::apply_galois_plain* (three forms) apply the map to a plaintext of any stored length and refuse invalid plaintexts and even elements. '
@@ -58,7 +65,7 @@ NOT_APPLICABLE = {
  'C18': 'agreement across n parties and all message delivery orders is a whole-history property; the per-call code sits behind iterator closures, context plumbing and serialization and no contract within reach connects it to "keys correspond to the sum of secret keys"',
 }
 
-PENDING = ['C01', 'C03', 'C04', 'C07', 'C09', 'C11', 'C12', 'C13', 'C16', 'C19', 'C20']
+PENDING = ['C01', 'C04', 'C07', 'C09', 'C11', 'C12', 'C13', 'C16', 'C19', 'C20']
 
 
 def main():
